@@ -9,19 +9,6 @@ Open Scope N_scope.
 Lemma wadd_small a b : a + b < 2 ^ 64 -> wadd a b = a + b.
 Proof. intros H. unfold wadd, w64. apply N.mod_small. exact H. Qed.
 
-(* ---------- the invariant tying the tracker state to the history ---------- *)
-Record Inv (h : list vote) (st : state) : Prop := mkInv {
-  inv_voters : forall s, alookup s (voters st) = spec_voter h s;
-  inv_equivs : forall s, alookup s (equivocators st) = spec_equiv h s;
-  inv_cnt : forall p, c_count (counter_of st p) = spec_cnt h p;
-  inv_votes : forall p s, alookup s (c_votes (counter_of st p)) = spec_voter_for h p s;
-  inv_entry : forall p, alookup p (counts st) = None <-> spec_cnt h p = 0;
-  inv_eqc : eqcount st = spec_eqw h;
-  inv_nd_voters : NoDup (keys (voters st));
-  inv_nd_counts : NoDup (keys (counts st));
-  inv_nd_equivs : NoDup (keys (equivocators st));
-  inv_nd_votes : forall p, NoDup (keys (c_votes (counter_of st p)))
-}.
 
 Lemma Inv_init : Inv [] init.
 Proof.
@@ -32,7 +19,7 @@ Lemma Inv_ext h h' st :
   (forall s, status_of h' s = status_of h s) -> (forall p, spec_cnt h' p = spec_cnt h p) ->
   spec_eqw h' = spec_eqw h -> Inv h st -> Inv h' st.
 Proof.
-  intros Hs Hc He I. destruct I. constructor; intros; auto.
+  intros Hs Hc He I. destruct I as [inv_voters0 inv_equivs0 inv_cnt0 inv_votes0 inv_entry0 inv_eqc0 inv_nd_voters0 inv_nd_counts0 inv_nd_equivs0 inv_nd_votes0]. constructor; intros; auto.
   - unfold spec_voter. rewrite Hs. apply inv_voters0.
   - unfold spec_equiv. rewrite Hs. apply inv_equivs0.
   - rewrite Hc. apply inv_cnt0.
@@ -92,7 +79,7 @@ Proof.
   { intros p. pose proof (tally_le_total h' p W). pose proof (spec_cnt_le_tally h' p). destruct W as [_ [_ T]]. unfold h' in *. lia. }
   assert (Pos : 0 < v_weight x).
   { destruct W as [P _]. apply P. apply in_or_app. right. left. reflexivity. }
-  destruct I. constructor; cbn [voters counts equivocators eqcount].
+  destruct I as [inv_voters0 inv_equivs0 inv_cnt0 inv_votes0 inv_entry0 inv_eqc0 inv_nd_voters0 inv_nd_counts0 inv_nd_equivs0 inv_nd_votes0]. constructor; cbn [voters counts equivocators eqcount].
   - intros s'. rewrite alookup_ainsert. unfold spec_voter. rewrite St. rewrite (N.eqb_sym s' s).
     destruct (s =? s'); [reflexivity|apply inv_voters0].
   - intros s'. unfold spec_equiv. rewrite St. destruct (s =? s') eqn:E; [|apply inv_equivs0].
@@ -142,7 +129,7 @@ Proof.
   { pose proof (spec_eqw_snoc h x) as H. fold s in H. rewrite S0, Hstep in H. cbn [eq_contrib] in H. unfold h'. lia. }
   assert (Bound : spec_eqw h' < 2 ^ 64).
   { pose proof (tally_le_total h' 0 W). pose proof (spec_eqw_le_tally h' 0). destruct W as [_ [_ T]]. unfold h' in *. lia. }
-  destruct I.
+  destruct I as [inv_voters0 inv_equivs0 inv_cnt0 inv_votes0 inv_entry0 inv_eqc0 inv_nd_voters0 inv_nd_counts0 inv_nd_equivs0 inv_nd_votes0].
   assert (Hoc : c_count oc = spec_cnt h (v_value old)) by apply inv_cnt0.
   assert (Cold := Cn (v_value old)). rewrite N.eqb_refl in Cold.
   assert (CO : forall p, counter_of (mkState (adelete s (voters st)) counts'
@@ -305,12 +292,6 @@ Proof.
 Qed.
 
 (* ---------- bundles ---------- *)
-Definition bundle_valid (q : option N) (h : list vote) (p : N) (b : bundle) : Prop :=
-  b_value b = p /\ b_votes b <> [] /\ NoDup (bundle_members b) /\
-  (forall s, In s (b_votes b) -> exists v, status_of h s = SVoted v /\ v_value v = p) /\
-  (forall s p0 p1, In (s, p0, p1) (b_eqs b) ->
-     exists v1 v2, status_of h s = SEquiv v1 v2 /\ v_value v1 = p0 /\ v_value v2 = p1 /\ p0 <> p1) /\
-  reaches q (bundle_weight h b) = true.
 
 Definition votes_good (h : list vote) (p : N) (votes : list vote) : Prop :=
   forall v, In v votes -> status_of h (v_sender v) = SVoted v /\ v_value v = p.
@@ -628,36 +609,8 @@ Proof.
 Qed.
 
 (* ---------- whole runs: observation traces ---------- *)
-Definition is_panic (o : out) : bool := match o with OPanic _ => true | _ => false end.
 
-(* what one observed reaction must satisfy w.r.t. the raw history *)
-Definition step_obs (q : option N) (h : list vote) (x : vote) (o : out) : Prop :=
-  let h' := h ++ [x] in
-  match o with
-  | OPanic t =>
-      (t = "eq"%string /\ reaches q (spec_eqw h') = true) \/
-      (t = "two"%string /\ reaches q (spec_eqw h') = false /\
-       exists p p', p <> p' /\ reaches q (spec_tally h' p) = true /\ reaches q (spec_tally h' p') = true)
-  | ONone =>
-      reaches q (spec_eqw h') = false /\ no_two q h' /\
-      ((forall p, reaches q (spec_tally h' p) = false) \/ (exists p, reaches q (spec_tally h p) = true))
-  | OThreshold p b =>
-      reaches q (spec_eqw h') = false /\ no_two q h' /\ reaches q (spec_tally h' p) = true /\
-      (forall p', reaches q (spec_tally h p') = false) /\ bundle_valid q h' p b
-  end.
-Definition snap_rel (h' : list vote) (o : out) (snap : option state) : Prop :=
-  match snap with
-  | Some st => is_panic o = false /\ Inv h' st
-  | None => is_panic o = true
-  end.
 
-(* an observation trace for the votes l received after history h0 *)
-Definition trace_ok (q : option N) (h0 l : list vote) (obs : list (out * option state)) : Prop :=
-  (forall i o snap, nth_error obs i = Some (o, snap) ->
-     exists x, nth_error l i = Some x /\ step_obs q (h0 ++ firstn i l) x o /\
-               snap_rel (h0 ++ firstn i l ++ [x]) o snap) /\
-  (forall i o snap, nth_error obs i = Some (o, snap) -> is_panic o = true -> S i = List.length obs) /\
-  ((forall o, In o (map fst obs) -> is_panic o = false) -> List.length obs = List.length l).
 
 Lemma trace_ok_nil q h0 : trace_ok q h0 [] [].
 Proof.
@@ -714,7 +667,7 @@ Proof.
   destruct o1 as [|p b|t]; cbn [is_panic] in SR, GG.
   - apply trace_ok_cons; auto. cbn [is_panic]. apply IH; [apply GG; reflexivity|rewrite <- app_assoc; exact W].
   - apply trace_ok_cons; auto. cbn [is_panic]. apply IH; [apply GG; reflexivity|rewrite <- app_assoc; exact W].
-  - apply trace_ok_cons; auto.
+  - apply trace_ok_cons; auto. cbn [is_panic]. reflexivity.
 Qed.
 
 Lemma Good_init q : reaches q 0 = false -> Good q [] init.
@@ -770,10 +723,12 @@ Proof.
   specialize (IH (wf_votes_prefix _ _ W)). lia.
 Qed.
 
-Lemma firstn_le_split {A} (l : list A) i j : (i <= j)%nat -> exists r, firstn j l = firstn i l ++ r.
+Lemma firstn_le_split {A} (l : list A) : forall i j, (i <= j)%nat -> exists r, firstn j l = firstn i l ++ r.
 Proof.
-  intros L. exists (firstn (j - i) (skipn i l)).
-  replace j with (i + (j - i))%nat at 1 by lia. apply firstn_add.
+  induction l as [|a l IH]; intros i j L.
+  - exists []. rewrite !firstn_nil. reflexivity.
+  - destruct i as [|i]; [exists (firstn j (a :: l)); reflexivity|].
+    destruct j as [|j]; [lia|]. destruct (IH i j) as [r E]; [lia|]. exists r. cbn [firstn app]. rewrite E. reflexivity.
 Qed.
 
 Lemma trace_ok_threshold_once q l obs : wf_votes l -> trace_ok q [] l obs ->
@@ -789,7 +744,162 @@ Proof.
   { intros a c pp L R. destruct (firstn_le_split l (S a) c L) as [r E]. rewrite E.
     eapply reaches_mono; [exact R|]. apply spec_tally_mono_app. rewrite <- E.
     apply (wf_votes_prefix _ (skipn c l)). rewrite firstn_skipn. exact W. }
-  destruct (Nat.lt_trichotomy i j) as [L|[E|L]]; [|exact E|].
+  assert (TR : (i < j)%nat \/ i = j \/ (j < i)%nat) by lia.
+  destruct TR as [L|[E|L]]; [|exact E|].
   - exfalso. pose proof (M i j p L Ri) as C. rewrite Bj in C. discriminate.
   - exfalso. pose proof (M j i p' L Rj) as C. rewrite Bi in C. discriminate.
+Qed.
+
+(* ---------- exactly when the tracker panics ---------- *)
+
+Lemma run_no_panic_iff q : reaches q 0 = false -> forall l h st, Good q h st -> wf_votes (h ++ l) ->
+  ((forall o, In o (map fst (run q st l)) -> is_panic o = false) <->
+   (forall l1 l2, l = l1 ++ l2 -> quorums_intersect q (h ++ l1))).
+Proof.
+  intros R0. induction l as [|x l IH]; intros h st G W; cbn [run].
+  - split; [|intros _ o []]. intros _ l1 l2 E. symmetry in E. apply app_eq_nil in E. destruct E; subst.
+    rewrite app_nil_r. destruct G as [_ G]. exact G.
+  - assert (W1 : wf_votes (h ++ [x])) by (apply (wf_votes_prefix _ l); rewrite <- app_assoc; exact W).
+    pose proof (handle_step q h st x R0 G W1) as SP. destruct (handle q st x) as [st1 o1]. cbn [fst snd] in SP.
+    destruct (step_post_obs _ _ _ _ _ SP) as [SO [_ GG]].
+    assert (HP : is_panic o1 = true -> ~ quorums_intersect q (h ++ [x])).
+    { destruct o1 as [|p b|t]; try discriminate. intros _ [HE NT]. cbn [step_obs] in SO.
+      destruct SO as [[_ RE]|[_ [_ [p [p' [Hne [R R']]]]]]]; [congruence|]. apply Hne. apply NT; assumption. }
+    destruct (is_panic o1) eqn:P.
+    + split.
+      * intros NP. exfalso. assert (is_panic o1 = false); [|congruence]. apply NP.
+        destruct o1; try discriminate. left. reflexivity.
+      * intros Q. exfalso. apply (HP eq_refl). apply (Q [x] l). reflexivity.
+    + specialize (GG eq_refl).
+      assert (W2 : wf_votes ((h ++ [x]) ++ l)) by (rewrite <- app_assoc; exact W).
+      specialize (IH (h ++ [x]) st1 GG W2).
+      assert (RUN : map fst (match o1 with OPanic _ => [(o1, None)] | _ => (o1, Some st1) :: run q st1 l end)
+                    = o1 :: map fst (run q st1 l)) by (destruct o1; try discriminate; reflexivity).
+      rewrite RUN. split.
+      * intros NP [|y l1] l2 E.
+        { rewrite app_nil_r. destruct G as [_ G]. exact G. }
+        { cbn [app] in E. inversion E; subst y.
+          replace (h ++ x :: l1) with ((h ++ [x]) ++ l1) by (rewrite <- app_assoc; reflexivity).
+          apply (proj1 IH) with (l2 := l2); [|assumption]. intros o Ho. apply NP. right. exact Ho. }
+      * intros Q o [E|Ho]; [subst; exact P|]. apply (proj2 IH); [|exact Ho].
+        intros l1 l2 E. replace ((h ++ [x]) ++ l1) with (h ++ (x :: l1)) by (rewrite <- app_assoc; reflexivity).
+        apply (Q (x :: l1) l2). cbn [app]. f_equal. exact E.
+Qed.
+
+(* a simple sufficient condition: the stake that voted, counting equivocators twice, stays
+   below two quorums *)
+Lemma two_tallies_le h p p' : wf_votes h -> p <> p' ->
+  spec_tally h p + spec_tally h p' <= total_weight h + spec_eqw h.
+Proof.
+  intros [_ [C _]] Hne. unfold spec_tally, spec_cnt, spec_eqw, total_weight.
+  rewrite <- !sumN_map_add. apply sumN_map_le. intros s _. rewrite member_weight_mw.
+  pose proof (status_facts h s) as F. destruct (status_of h s) as [|v|v1 v2]; cbn [cnt_contrib eq_contrib mw]; [lia| |].
+  - destruct (v_value v =? p) eqn:E1; destruct (v_value v =? p') eqn:E2; lia.
+  - destruct F as [I1 [I2 [S1 [S2 _]]]]. rewrite (C v1 v2 I1 I2); [lia|congruence].
+Qed.
+
+Lemma eqw_le_total h : wf_votes h -> spec_eqw h <= total_weight h.
+Proof. intros W. pose proof (tally_le_total h 0 W). unfold spec_tally in *. lia. Qed.
+
+Lemma spec_eqw_mono_app h l : spec_eqw h <= spec_eqw (h ++ l).
+Proof.
+  induction l as [|x l IH] using rev_ind; [rewrite app_nil_r; lia|].
+  rewrite app_assoc. pose proof (spec_eqw_snoc (h ++ l) x) as H.
+  destruct (status_of (h ++ l) (v_sender x)) as [|v|v1 v2]; cbn [status_step eq_contrib] in H; lia.
+Qed.
+
+Lemma quorums_intersect_suff t h l : wf_votes (h ++ l) ->
+  total_weight (h ++ l) + spec_eqw (h ++ l) < 2 * t -> quorums_intersect (Some t) h.
+Proof.
+  intros W B. pose proof (wf_votes_prefix _ _ W) as W0.
+  pose proof (total_weight_mono h l). pose proof (spec_eqw_mono_app h l).
+  pose proof (eqw_le_total h W0). split.
+  - cbn [reaches]. apply N.leb_gt. lia.
+  - intros p p' R R'. cbn [reaches] in R, R'. apply N.leb_le in R, R'.
+    destruct (N.eq_dec p p') as [E|E]; [exact E|]. pose proof (two_tallies_le h p p' W0 E). lia.
+Qed.
+
+(* ---------- the state-only structural invariant ---------- *)
+
+Lemma Inv_tracker_wf h st : Inv h st -> wf_votes h -> tracker_wf st.
+Proof.
+  intros I W. pose proof W as [Pos _].
+  assert (CO : forall p c, alookup p (counts st) = Some c -> counter_of st p = c).
+  { intros p c L. unfold counter_of. rewrite L. reflexivity. }
+  constructor.
+  - split; [apply (inv_nd_voters _ _ I)|split; [apply (inv_nd_counts _ _ I)|apply (inv_nd_equivs _ _ I)]].
+  - intros s. rewrite (inv_voters _ _ I), (inv_equivs _ _ I). unfold spec_voter, spec_equiv.
+    destruct (status_of h s); congruence.
+  - intros p c L. pose proof (CO p c L) as E. split; [|split].
+    + intros Z. assert (NZ : spec_cnt h p <> 0).
+      { intro Z0. apply (inv_entry _ _ I) in Z0. congruence. }
+      apply NZ. rewrite <- (stored_votes_sum h st p I). rewrite E, Z. reflexivity.
+    + rewrite <- E. apply (inv_nd_votes _ _ I).
+    + intros s v. rewrite <- E. rewrite (inv_votes _ _ I), (inv_voters _ _ I). unfold spec_voter_for, spec_voter.
+      destruct (status_of h s) as [|v0|v1 v2]; try (split; [discriminate|intros [? _]; discriminate]).
+      destruct (v_value v0 =? p) eqn:EV.
+      * apply N.eqb_eq in EV. split; [intros H; inversion H; subst; auto|tauto].
+      * apply N.eqb_neq in EV. split; [discriminate|]. intros [H1 H2]. inversion H1; subst. contradiction.
+  - intros s v L. rewrite (inv_voters _ _ I) in L. unfold spec_voter in L.
+    destruct (status_of h s) as [|v0|v1 v2] eqn:S; try discriminate. inversion L; subst v0.
+    intro Z. apply (inv_entry _ _ I) in Z.
+    pose proof (proj1 (spec_cnt_zero_iff h (v_value v) Pos) Z s v S). congruence.
+  - intros p c L. pose proof (CO p c L) as E. rewrite <- E. rewrite (inv_cnt _ _ I).
+    rewrite <- (stored_votes_sum h st p I). rewrite map_map. reflexivity.
+  - rewrite (inv_eqc _ _ I). rewrite <- (stored_eqs_sum h st I W). rewrite map_map. reflexivity.
+  - split.
+    + intros s v L. rewrite (inv_voters _ _ I) in L. unfold spec_voter in L.
+      destruct (status_of h s) as [|v0|v1 v2] eqn:S; try discriminate. inversion L; subst v0.
+      apply (status_voted_in _ _ _ S).
+    + intros s e L. rewrite (inv_equivs _ _ I) in L. unfold spec_equiv in L.
+      destruct (status_of h s) as [|v0|v1 v2] eqn:S; try discriminate. inversion L; subst e.
+      cbn [e_sender e_p0 e_p1]. pose proof (status_equiv_in _ _ _ _ S). tauto.
+Qed.
+
+(* ---------- duplicates add nothing; equivocators count for every value ---------- *)
+Lemma status_of_member h x : In x h ->
+  match status_of h (v_sender x) with
+  | SNone => False
+  | SVoted v => v_value v = v_value x
+  | SEquiv _ _ => True
+  end.
+Proof.
+  induction h as [|y h IH] using rev_ind; [intros []|].
+  rewrite in_app_iff. cbn [In]. intros Hin. rewrite status_snoc.
+  destruct (v_sender y =? v_sender x) eqn:E.
+  - destruct Hin as [Hin|[Hin|[]]].
+    + specialize (IH Hin). destruct (status_of h (v_sender x)) as [|v|v1 v2]; [destruct IH| |exact I].
+      cbn [status_step]. destruct (v_value v =? v_value y); [exact IH|exact I].
+    + subst y. destruct (status_of h (v_sender x)) as [|v|v1 v2]; cbn [status_step]; [reflexivity| |exact I].
+      destruct (v_value v =? v_value x) eqn:E2; [apply N.eqb_eq in E2; exact E2|exact I].
+  - destruct Hin as [Hin|[Hin|[]]]; [exact (IH Hin)|]. subst y. rewrite N.eqb_refl in E. discriminate.
+Qed.
+
+Lemma duplicate_adds_nothing h x p : In x h -> spec_tally (h ++ [x]) p = spec_tally h p.
+Proof.
+  intros Hin. pose proof (status_of_member h x Hin) as M.
+  assert (U : status_step (status_of h (v_sender x)) x = status_of h (v_sender x)).
+  { destruct (status_of h (v_sender x)) as [|v|v1 v2]; [destruct M| |reflexivity].
+    cbn [status_step]. rewrite M, N.eqb_refl. reflexivity. }
+  destruct (spec_unchanged h x U) as [_ [Hc He]]. unfold spec_tally. rewrite Hc, He. reflexivity.
+Qed.
+
+(* a repeat by the same sender for the same value adds nothing either, whatever it looks like *)
+Lemma repeat_adds_nothing h x y p : In y h -> v_sender y = v_sender x -> v_value y = v_value x ->
+  spec_tally (h ++ [x]) p = spec_tally h p.
+Proof.
+  intros Hin Es Ev. pose proof (status_of_member h y Hin) as M. rewrite Es in M.
+  assert (U : status_step (status_of h (v_sender x)) x = status_of h (v_sender x)).
+  { destruct (status_of h (v_sender x)) as [|v|v1 v2]; [destruct M| |reflexivity].
+    cbn [status_step]. rewrite M, Ev, N.eqb_refl. reflexivity. }
+  destruct (spec_unchanged h x U) as [_ [Hc He]]. unfold spec_tally. rewrite Hc, He. reflexivity.
+Qed.
+
+(* an equivocator's weight is part of the tally of EVERY value *)
+Lemma equivocator_counts_everywhere h s v1 v2 p :
+  status_of h s = SEquiv v1 v2 -> v_weight v2 <= spec_tally h p.
+Proof.
+  intros S. unfold spec_tally, spec_eqw.
+  pose proof (sumN_in_le (fun s0 => eq_contrib (status_of h s0)) (senders h) s) as L. cbn beta in L.
+  rewrite S in L. cbn [eq_contrib] in L. specialize (L (status_seen h s ltac:(congruence))). lia.
 Qed.
